@@ -7,7 +7,7 @@ from typing import Dict, List, Set, Tuple
 
 from ..astutil import ancestors, block_of, calls_in, dotted, guard_atoms, lexical_guards, name_stores, test_atoms, unparse, walk_local, walk_stmts
 from ..cfg import no_exc
-from ..report import Registry, sub
+from ..report import Registry, chain, sub
 from ._helpers_rules_d import call_nodes, callee_is, guard_atom_set, kw, qualname
 
 R = Registry(
@@ -19,9 +19,14 @@ R = Registry(
         "every store/removal is paired with the incoming/removed bookkeeping; the loader constructs a new instance "
         "only when the identity lookup for the row's key failed and registers it under that same key; Session.get "
         "reaches the database only on an identity-map miss or when populate_existing / always_refresh / "
-        "with_for_update demand it, and an identity hit is refreshed only when expired."
+        "with_for_update demand it, and an identity hit is refreshed only when expired; wherever orm/ writes a state's key, "
+        "the entry is removed under the key it was registered with (discard < key store < re-registration; a key is only "
+        "removed after the state left the map); an identity token travels with the primary key (forwarded by every function "
+        "that accepts one, components [1] and [2] of one key passed together, compared with None only); only states attached "
+        "to the session are registered in its identity map."
     ),
-    not_decided="object identity across arbitrary histories (primary-key switches, merges, sharded identity tokens).",
+    not_decided="object identity across arbitrary histories (values of primary keys, merges of unrelated keys); identity tokens of "
+                "secondary loads on a plain Session (selectin polymorphic / selectinload / lazy loads run without the parent's token).",
 )
 
 IDENT = "orm/identity.py"
@@ -510,10 +515,10 @@ def r6(ctx):
             g = ctx.cfg(fn)
             imaps = _imap_aliases(fn)
             params = [a.arg for a in fn.args.posonlyargs + fn.args.args + fn.args.kwonlyargs]
+            problems, wit, notes = [], None, []
             for var, sts in sorted(writes.items()):
                 disc = call_nodes(g, lambda c: _imap_op(c, KEY_DISCARDS, var, imaps) or _helper_op(c, disc_tbl, var))
                 reg = call_nodes(g, lambda c: _imap_op(c, KEY_REGISTERS, var, imaps) or _helper_op(c, reg_tbl, var))
-                problems, wit, notes = [], None, []
                 for st, kind in sts:
                     starts, heads = _pass_bounds(g, pm, fn, st)
                     for N in g.nodes_for(st):
@@ -564,12 +569,9 @@ def r6(ctx):
                             ctx.require(n_sites >= 1, f"{fkey}: no call site of {fn.name} found in orm/")
                             problems.extend(cp)
                             notes.append(f"`{unparse(st)}` only under `{'/'.join(flags)}`; the {n_sites} call sites pass it only after discarding the states")
-                n_inst += 1
-                uniq = []
-                for p_ in problems:
-                    if p_ not in uniq:
-                        uniq.append(p_)
-                ctx.check(not uniq, f"{fkey}:key-write[{var}]", "; ".join(uniq), "; ".join(dict.fromkeys(notes)) or "discard < key store < register", f"{m.path}:{fn.lineno}", wit)
+            n_inst += 1
+            uniq = list(dict.fromkeys(problems))
+            ctx.check(not uniq, f"{fkey}:key-write", "; ".join(uniq), "; ".join(dict.fromkeys(notes)) or "discard < key store < register", f"{m.path}:{fn.lineno}", wit)
     ctx.require(n_inst >= 1, "no function of orm/ writes the key of a state")
 
 
@@ -596,12 +598,17 @@ def _callee_name(c: ast.Call):
     return c.func.attr if isinstance(c.func, ast.Attribute) else (c.func.id if isinstance(c.func, ast.Name) else None)
 
 
-def _accepting_call(c: ast.Call, acc) -> bool:
+def _accepting_call(c: ast.Call, acc, own_class=None, index=None) -> bool:
     nm = _callee_name(c)
     if nm not in acc:
         return False
     if nm in AMBIGUOUS_CALLEES:
         recv = dotted(c.func.value) if isinstance(c.func, ast.Attribute) else None
+        if recv in ("self", "super()") and own_class is not None and index is not None:
+            # resolved through the static MRO of the class the call is written in
+            target = index.resolve_method(own_class, nm)
+            if target is not None:
+                return TOKEN in target.params
         return recv is not None and recv.rsplit(".", 1)[-1] in SESSION_LIKE_RECEIVERS
     return True
 
@@ -647,7 +654,7 @@ def r7(ctx):
                     for k in n.keywords:
                         if k.arg == TOKEN and _reads(k.value, tok):
                             sinks.append(f"{unparse(n.func)}({TOKEN}=...)")
-                    if _accepting_call(n, acc):
+                    if _accepting_call(n, acc, f.cls, ctx.index):
                         t = _token_arg(n, acc)
                         if t is None and not any(k.arg is None for k in n.keywords):
                             bare.append(f"{unparse(n.func)}(...) at line {n.lineno}")
@@ -669,7 +676,7 @@ def r7(ctx):
                     continue
                 own = sum(1 for k in c.keywords if isinstance(k.value, ast.Name) and k.arg == k.value.id and k.arg in f.params)
                 given = {a.id for a in list(c.args) + [k.value for k in c.keywords] if isinstance(a, ast.Name)}
-                if own >= 2 and given & companions and not _accepting_call(c, acc):
+                if own >= 2 and given & companions and not _accepting_call(c, acc, f.cls, ctx.index):
                     if (f"{TOKEN} is None", True) in set(guard_atoms(lexical_guards(f.module.parents(), c, stop=f.node))):
                         continue  # the branch that runs when no token was given
                     bare.append(f"{unparse(c.func)}(...) at line {c.lineno} (forwards {sorted(given & companions)} like its token-carrying sibling call, but no token)")
@@ -691,8 +698,12 @@ def r7(ctx):
                 for i in (1, 2):
                     if v is not None and _is_const_index(v, i):
                         comp[n] = (unparse(v.value), i)
+            own_cls = None
             for c in calls_in(fn):
-                if not _accepting_call(c, acc):
+                if _callee_name(c) in AMBIGUOUS_CALLEES and own_cls is None:
+                    cq = ".".join(reversed([a.name for a in ancestors(m.parents(), fn) if isinstance(a, ast.ClassDef)]))
+                    own_cls = ctx.index.cls(f"{m.relpath}::{cq}") if cq and ctx.index.has(f"{m.relpath}::{cq}") else None
+                if not _accepting_call(c, acc, own_cls, ctx.index):
                     continue
                 bases = []
                 for a in list(c.args) + [k.value for k in c.keywords if k.arg != TOKEN]:
@@ -803,7 +814,9 @@ def _bookkeeping_source(pm, fn, N_stmt, var: str):
     return None
 
 
-@R.rule("C34-R9", floor=5, template="T-GUARD",
+# 5 registering functions today; the floor is one lower so that ONE vanished registration is judged by C34-R6 (a re-keyed state that is
+# never registered again) instead of being reported as blindness
+@R.rule("C34-R9", floor=4, template="T-GUARD",
         desc="a state is registered in a session's identity map only while it is attached to that session: every "
              "add/replace/_add_unpresent outside orm/identity.py follows the attach protocol for that state "
              "(_before_attach, or session_id set beside it), or is guarded by the state's attachment, or takes its states "
@@ -838,8 +851,8 @@ def r9(ctx):
             by_var: Dict[str, list] = {}
             for c in sites:
                 by_var.setdefault(c.args[0].id, []).append(c)
+            why, bad = [], []
             for var, cs in sorted(by_var.items()):
-                why, bad = [], []
                 for c in cs:
                     for N in call_nodes(g, lambda x: x is c):
                         ev_ = _attach_evidence(ctx, g, fn, N, var)
@@ -858,8 +871,8 @@ def r9(ctx):
                             bad.append(f"`{unparse(c)}` registers `{var}` without the attach protocol or a test of its attachment")
                         else:
                             why.append(ev_)
-                n_inst += 1
-                ctx.check(not bad, f"{fkey}:registers-attached[{var}]", "; ".join(dict.fromkeys(bad)), "; ".join(dict.fromkeys(why)), f"{m.path}:{cs[0].lineno}")
+            n_inst += 1
+            ctx.check(not bad, f"{fkey}:registers-attached", "; ".join(dict.fromkeys(bad)), "; ".join(dict.fromkeys(why)), f"{m.path}:{sites[0].lineno}")
     ctx.require(n_inst >= 1, "no identity-map registration site found outside orm/identity.py")
 
 
@@ -887,3 +900,78 @@ R.mutant("benign-rename-existing", IDENT, sub("                existing_state = 
                                               "                prior = self._dict[key]\n            except KeyError:\n                # catch gc removed the key after we just checked for it\n                pass\n            else:\n                if prior is not state:\n                    o = prior.obj()"), None)
 R.mutant("benign-loader-log", LOADING, sub("                instance = mapper.class_manager.new_instance()\n\n                dict_ = instance_dict(instance)\n", "                instance = mapper.class_manager.new_instance()\n                _k = identitykey\n\n                dict_ = instance_dict(instance)\n"), None)
 R.mutant("benign-get-reorder-conjuncts", SESSION, sub("            not populate_existing\n            and not mapper.always_refresh\n            and for_update_arg is None\n", "            for_update_arg is None\n            and not mapper.always_refresh\n            and not populate_existing\n"), None)
+
+# ---- C34-R6 (key writes vs. identity-map operations)
+_RESTORE_LOOP = ("            self.session.identity_map.safe_discard(s)\n\n"
+                 "            # restore the old key and the object, but only if we didn't\n"
+                 "            # expunge; an expunged object is transient and has no key\n"
+                 "            if s not in to_expunge:\n"
+                 "                s.key = oldkey\n"
+                 "                self.session.identity_map.replace(s)\n")
+R.mutant("seed-restore-rekeys-before-discard", SESSION,
+         sub(_RESTORE_LOOP, "            if s not in to_expunge:\n                s.key = oldkey\n\n            self.session.identity_map.safe_discard(s)\n\n"
+                            "            if s not in to_expunge:\n                self.session.identity_map.replace(s)\n"), "C34-R6")
+R.mutant("restore-rekeys-without-reregistering", SESSION,
+         sub(_RESTORE_LOOP, "            self.session.identity_map.safe_discard(s)\n\n            if s not in to_expunge:\n                s.key = oldkey\n"), "C34-R6")
+R.mutant("restore-registers-before-rekey", SESSION,
+         sub(_RESTORE_LOOP, "            self.session.identity_map.safe_discard(s)\n\n            if s not in to_expunge:\n                self.session.identity_map.replace(s)\n                s.key = oldkey\n"), "C34-R6")
+R.mutant("register-persistent-switch-without-discard", SESSION,
+         sub("                    # map (see test/orm/test_naturalpks.py ReversePKsTest)\n                    self.identity_map.safe_discard(state)\n", "                    # map (see test/orm/test_naturalpks.py ReversePKsTest)\n"), "C34-R6")
+R.mutant("make-transient-removes-key-before-expunge", SESSION,
+         chain(sub("    state = attributes.instance_state(instance)\n    s = _state_session(state)\n    if s:\n        s._expunge_states([state])\n",
+                   "    state = attributes.instance_state(instance)\n    if state.key:\n        del state.key\n    s = _state_session(state)\n    if s:\n        s._expunge_states([state])\n"),
+               sub("    if state.key:\n        del state.key\n    if state._deleted:\n        del state._deleted\n", "    if state._deleted:\n        del state._deleted\n")), "C34-R6")
+R.mutant("expunge-detaches-to-transient-before-discard", SESSION,
+         chain(sub("        for state in states:\n            if state in self._new:\n                self._new.pop(state)\n            elif self.identity_map.contains_state(state):",
+                   "        statelib.InstanceState._detach_states(\n            states, self, to_transient=to_transient\n        )\n        for state in states:\n            if state in self._new:\n                self._new.pop(state)\n            elif self.identity_map.contains_state(state):"),
+               sub("                self._transaction._deleted.pop(state, None)\n        statelib.InstanceState._detach_states(\n            states, self, to_transient=to_transient\n        )\n",
+                   "                self._transaction._deleted.pop(state, None)\n")), "C34-R6")
+R.mutant("benign-restore-alias-and-rename", SESSION,
+         sub("        for s, (oldkey, newkey) in self._key_switches.items():\n            # we probably can do this conditionally based on\n            # if we expunged or not, but safe_discard does that anyway\n" + _RESTORE_LOOP,
+             "        imap = self.session.identity_map\n        for st_, (k_old, k_new) in self._key_switches.items():\n            imap.safe_discard(st_)\n            _dbg = k_new\n"
+             "            if st_ not in to_expunge:\n                st_.key = k_old\n                imap.replace(st_)\n"), None)
+R.mutant("benign-register-persistent-discard-in-helper", SESSION,
+         chain(sub("                    # map (see test/orm/test_naturalpks.py ReversePKsTest)\n                    self.identity_map.safe_discard(state)\n",
+                   "                    # map (see test/orm/test_naturalpks.py ReversePKsTest)\n                    self._forget_identity(state)\n"),
+               sub("    def _register_altered(self, states: Iterable[InstanceState[Any]]) -> None:\n",
+                   "    def _forget_identity(self, state: InstanceState[Any]) -> None:\n        self.identity_map.safe_discard(state)\n\n"
+                   "    def _register_altered(self, states: Iterable[InstanceState[Any]]) -> None:\n")), None)
+R.mutant("benign-make-transient-expunge-tuple", SESSION, sub("    if s:\n        s._expunge_states([state])\n\n    # remove expired state\n", "    if s:\n        s._expunge_states((state,))\n\n    # remove expired state\n"), None)
+# ---- C34-R7 (the token travels with the primary key)
+R.mutant("seed-merge-get-without-token", SESSION,
+         sub("                merged = self.get(\n                    mapper.class_,\n                    key[1],\n                    identity_token=key[2],\n                    options=options,\n                )\n",
+             "                merged = self.get(mapper.class_, key[1], options=options)\n"), "C34-R7")
+R.mutant("merge-get-token-of-other-key", SESSION,
+         sub("                    key[1],\n                    identity_token=key[2],\n", "                    key[1],\n                    identity_token=state.identity_token,\n"), "C34-R7")
+R.mutant("load-on-ident-drops-token", LOADING,
+         sub("        only_load_props=only_load_props,\n        identity_token=identity_token,\n        no_autoflush=no_autoflush,\n        bind_arguments=bind_arguments,\n        execution_options=execution_options,\n        require_pk_cols=require_pk_cols,\n        is_user_refresh=is_user_refresh,\n    )\n\n\ndef _load_on_pk_identity(",
+             "        only_load_props=only_load_props,\n        no_autoflush=no_autoflush,\n        bind_arguments=bind_arguments,\n        execution_options=execution_options,\n        require_pk_cols=require_pk_cols,\n        is_user_refresh=is_user_refresh,\n    )\n\n\ndef _load_on_pk_identity("), "C34-R7")
+R.mutant("get-does-not-forward-token", SESSION,
+         sub("            with_for_update=with_for_update,\n            identity_token=identity_token,\n            execution_options=execution_options,\n            bind_arguments=bind_arguments,\n        )\n\n    def get_one(",
+             "            with_for_update=with_for_update,\n            execution_options=execution_options,\n            bind_arguments=bind_arguments,\n        )\n\n    def get_one("), "C34-R7")
+R.mutant("get-impl-loads-without-token", SESSION,
+         sub("            load_options=load_options,\n            identity_token=identity_token,\n            execution_options=execution_options,\n            bind_arguments=bind_arguments,\n        )\n",
+             "            load_options=load_options,\n            execution_options=execution_options,\n            bind_arguments=bind_arguments,\n        )\n"), "C34-R7")
+R.mutant("identity-key-from-pk-ignores-token", "orm/mapper.py",
+         sub("        return (\n            self._identity_class,\n            tuple(primary_key),\n            identity_token,\n        )\n", "        return (\n            self._identity_class,\n            tuple(primary_key),\n            None,\n        )\n"), "C34-R7")
+R.mutant("benign-merge-unpacks-key-into-locals", SESSION,
+         sub("                merged = self.get(\n                    mapper.class_,\n                    key[1],\n                    identity_token=key[2],\n",
+             "                pk_ = key[1]\n                tok_ = key[2]\n                merged = self.get(\n                    mapper.class_,\n                    pk_,\n                    identity_token=tok_,\n"), None)
+# ---- C34-R8 (None is the only "no token")
+R.mutant("sharded-lookup-tests-token-truthiness", "ext/horizontal_shard.py",
+         sub("        if identity_token is not None:\n            obj = super()._identity_lookup(", "        if identity_token:\n            obj = super()._identity_lookup("), "C34-R8")
+R.mutant("get-impl-normalises-falsy-token", SESSION,
+         sub("            load_options=load_options,\n            identity_token=identity_token,\n            execution_options=execution_options,\n            bind_arguments=bind_arguments,\n        )\n",
+             "            load_options=load_options,\n            identity_token=identity_token or None,\n            execution_options=execution_options,\n            bind_arguments=bind_arguments,\n        )\n"), "C34-R8")
+R.mutant("benign-sharded-lookup-none-test-reversed", "ext/horizontal_shard.py",
+         sub("        if identity_token is not None:\n            obj = super()._identity_lookup(", "        if not (identity_token is None):\n            obj = super()._identity_lookup("), None)
+# ---- C34-R9 (only attached states are registered)
+R.mutant("delete-registers-before-attach-check", SESSION,
+         sub("        to_attach = self._before_attach(state, obj)\n\n        if state in self._deleted:\n            return\n\n        self.identity_map.add(state)\n",
+             "        self.identity_map.add(state)\n\n        to_attach = self._before_attach(state, obj)\n\n        if state in self._deleted:\n            return\n"), "C34-R9")
+R.mutant("loader-registers-unattached-state", LOADING,
+         sub("                # attach instance to session.\n                state.session_id = session_id\n                session_identity_map._add_unpresent(state, identitykey)\n",
+             "                session_identity_map._add_unpresent(state, identitykey)\n"), "C34-R9")
+R.mutant("benign-update-impl-alias-map", SESSION,
+         sub("        self._deleted.pop(state, None)\n        if revert_deletion:\n            self.identity_map.replace(state)\n        else:\n            self.identity_map.add(state)\n",
+             "        self._deleted.pop(state, None)\n        imap = self.identity_map\n        if revert_deletion:\n            imap.replace(state)\n        else:\n            imap.add(state)\n"), None)
